@@ -291,10 +291,19 @@ func (t *tb) Helper()                   {}
 func (t *tb) Fatalf(f string, a ...any) { t.msg = fmt.Sprintf(f, a...); panic(t) }
 func (t *tb) Logf(string, ...any)       {}
 
-type cstep struct {
+// modifier is the chainable wrapper that GRIBIClient.Modify() returns (its type is unexported).
+type modifier[M any] interface {
+	AddEntry(testing.TB, ...fluent.GRIBIEntry) M
+	ReplaceEntry(testing.TB, ...fluent.GRIBIEntry) M
+	DeleteEntry(testing.TB, ...fluent.GRIBIEntry) M
+	UpdateElectionID(testing.TB, uint64, uint64) M
+}
+
+type cstep[M modifier[M]] struct {
 	name string
-	// do performs the call; it returns the operations the model expects to have been queued (type, own election id)
-	do func(c *fluent.GRIBIClient, t testing.TB) []expOp
+	// do performs the call on the wrapper it is given and returns the wrapper the call returned (for chaining) and
+	// the operations the model expects to have been queued (type, own election id)
+	do func(m M, t testing.TB) (M, []expOp)
 	// elec, if non-nil, is the election id set by this step
 	elec *spb.Uint128
 }
@@ -309,47 +318,49 @@ func entryNH(i uint64) fluent.GRIBIEntry {
 	return fluent.NextHopEntry().WithNetworkInstance("DEFAULT").WithIndex(i).WithIPAddress("192.0.2.1")
 }
 
-func clientSteps() []cstep {
-	return []cstep{
-		{name: "AddEntry(nh1)", do: func(c *fluent.GRIBIClient, t testing.TB) []expOp {
-			c.Modify().AddEntry(t, entryNH(1))
-			return []expOp{{spb.AFTOperation_ADD, nil, 1}}
+func clientSteps[M modifier[M]]() []cstep[M] {
+	return []cstep[M]{
+		{name: "AddEntry(nh1)", do: func(m M, t testing.TB) (M, []expOp) {
+			m = m.AddEntry(t, entryNH(1))
+			return m, []expOp{{spb.AFTOperation_ADD, nil, 1}}
 		}},
-		{name: "ReplaceEntry(nh2)", do: func(c *fluent.GRIBIClient, t testing.TB) []expOp {
-			c.Modify().ReplaceEntry(t, entryNH(2))
-			return []expOp{{spb.AFTOperation_REPLACE, nil, 2}}
+		{name: "ReplaceEntry(nh2)", do: func(m M, t testing.TB) (M, []expOp) {
+			m = m.ReplaceEntry(t, entryNH(2))
+			return m, []expOp{{spb.AFTOperation_REPLACE, nil, 2}}
 		}},
-		{name: "DeleteEntry(nh3)", do: func(c *fluent.GRIBIClient, t testing.TB) []expOp {
-			c.Modify().DeleteEntry(t, entryNH(3))
-			return []expOp{{spb.AFTOperation_DELETE, nil, 3}}
+		{name: "DeleteEntry(nh3)", do: func(m M, t testing.TB) (M, []expOp) {
+			m = m.DeleteEntry(t, entryNH(3))
+			return m, []expOp{{spb.AFTOperation_DELETE, nil, 3}}
 		}},
-		{name: "AddEntry(nh4, nh5)", do: func(c *fluent.GRIBIClient, t testing.TB) []expOp {
-			c.Modify().AddEntry(t, entryNH(4), entryNH(5))
-			return []expOp{{spb.AFTOperation_ADD, nil, 4}, {spb.AFTOperation_ADD, nil, 5}}
+		{name: "AddEntry(nh4, nh5)", do: func(m M, t testing.TB) (M, []expOp) {
+			m = m.AddEntry(t, entryNH(4), entryNH(5))
+			return m, []expOp{{spb.AFTOperation_ADD, nil, 4}, {spb.AFTOperation_ADD, nil, 5}}
 		}},
-		{name: "AddEntry(nh6.WithElectionID(77,0))", do: func(c *fluent.GRIBIClient, t testing.TB) []expOp {
-			c.Modify().AddEntry(t, fluent.NextHopEntry().WithNetworkInstance("DEFAULT").WithIndex(6).WithElectionID(77, 0))
-			return []expOp{{spb.AFTOperation_ADD, &spb.Uint128{Low: 77}, 6}}
+		{name: "AddEntry(nh6.WithElectionID(77,0))", do: func(m M, t testing.TB) (M, []expOp) {
+			m = m.AddEntry(t, fluent.NextHopEntry().WithNetworkInstance("DEFAULT").WithIndex(6).WithElectionID(77, 0))
+			return m, []expOp{{spb.AFTOperation_ADD, &spb.Uint128{Low: 77}, 6}}
 		}},
 		// one call with several entries of which one names its own election id (before / between plain ones)
-		{name: "AddEntry(nh7.WithElectionID(55,0), nh8)", do: func(c *fluent.GRIBIClient, t testing.TB) []expOp {
-			c.Modify().AddEntry(t, fluent.NextHopEntry().WithNetworkInstance("DEFAULT").WithIndex(7).WithElectionID(55, 0), entryNH(8))
-			return []expOp{{spb.AFTOperation_ADD, &spb.Uint128{Low: 55}, 7}, {spb.AFTOperation_ADD, nil, 8}}
+		{name: "AddEntry(nh7.WithElectionID(55,0), nh8)", do: func(m M, t testing.TB) (M, []expOp) {
+			m = m.AddEntry(t, fluent.NextHopEntry().WithNetworkInstance("DEFAULT").WithIndex(7).WithElectionID(55, 0), entryNH(8))
+			return m, []expOp{{spb.AFTOperation_ADD, &spb.Uint128{Low: 55}, 7}, {spb.AFTOperation_ADD, nil, 8}}
 		}},
-		{name: "ReplaceEntry(nh9, nh10.WithElectionID(66,1), nh11)", do: func(c *fluent.GRIBIClient, t testing.TB) []expOp {
-			c.Modify().ReplaceEntry(t, entryNH(9), fluent.NextHopEntry().WithNetworkInstance("DEFAULT").WithIndex(10).WithElectionID(66, 1), entryNH(11))
-			return []expOp{{spb.AFTOperation_REPLACE, nil, 9}, {spb.AFTOperation_REPLACE, &spb.Uint128{Low: 66, High: 1}, 10}, {spb.AFTOperation_REPLACE, nil, 11}}
+		{name: "ReplaceEntry(nh9, nh10.WithElectionID(66,1), nh11)", do: func(m M, t testing.TB) (M, []expOp) {
+			m = m.ReplaceEntry(t, entryNH(9), fluent.NextHopEntry().WithNetworkInstance("DEFAULT").WithIndex(10).WithElectionID(66, 1), entryNH(11))
+			return m, []expOp{{spb.AFTOperation_REPLACE, nil, 9}, {spb.AFTOperation_REPLACE, &spb.Uint128{Low: 66, High: 1}, 10}, {spb.AFTOperation_REPLACE, nil, 11}}
 		}},
-		{name: "UpdateElectionID(20,0)", elec: &spb.Uint128{Low: 20}, do: func(c *fluent.GRIBIClient, t testing.TB) []expOp {
-			c.Modify().UpdateElectionID(t, 20, 0)
-			return nil
+		{name: "UpdateElectionID(20,0)", elec: &spb.Uint128{Low: 20}, do: func(m M, t testing.TB) (M, []expOp) {
+			m = m.UpdateElectionID(t, 20, 0)
+			return m, nil
 		}},
-		{name: "UpdateElectionID(30,1)", elec: &spb.Uint128{Low: 30, High: 1}, do: func(c *fluent.GRIBIClient, t testing.TB) []expOp {
-			c.Modify().UpdateElectionID(t, 30, 1)
-			return nil
+		{name: "UpdateElectionID(30,1)", elec: &spb.Uint128{Low: 30, High: 1}, do: func(m M, t testing.TB) (M, []expOp) {
+			m = m.UpdateElectionID(t, 30, 1)
+			return m, nil
 		}},
 	}
 }
+
+func countSteps[M modifier[M]](func(*fluent.GRIBIClient) M) int { return len(clientSteps[M]()) }
 
 func pendingOps(c *fluent.GRIBIClient, t testing.TB) []*spb.AFTOperation {
 	var out []*spb.AFTOperation
@@ -361,8 +372,11 @@ func pendingOps(c *fluent.GRIBIClient, t testing.TB) []*spb.AFTOperation {
 	return out
 }
 
-func runClientProgram(elected bool, prog []int) (fs []fail) {
-	steps := clientSteps()
+// runClientProgram runs one program. mk yields the wrapper (c.Modify()); mode 0: a fresh wrapper for every call (what
+// the project's own tests do); mode 1: ONE wrapper obtained before the first call and used for all of them;
+// mode 2: chained - every call is made on the wrapper the previous call returned.
+func runClientProgram[M modifier[M]](elected bool, mode int, prog []int, mk func(c *fluent.GRIBIClient) M) (fs []fail) {
+	steps := clientSteps[M]()
 	var names []string
 	for _, i := range prog {
 		names = append(names, steps[i].name)
@@ -389,8 +403,16 @@ func runClientProgram(elected bool, prog []int) (fs []fail) {
 	var want []expOp
 	var wantStamp []*spb.Uint128
 	var frozen []string // serialised form of each queued operation right after it was queued
+	held := mk(c)
 	for si, i := range prog {
-		exp := steps[i].do(c, t)
+		m := held
+		if mode == 0 {
+			m = mk(c)
+		}
+		ret, exp := steps[i].do(m, t)
+		if mode == 2 {
+			held = ret
+		}
 		if steps[i].elec != nil {
 			cur = steps[i].elec
 		}
@@ -485,7 +507,7 @@ func Run(rep *report.Report, tier string) {
 	}
 	rep.Set("builder_programs", perKind)
 	// client level
-	ns := len(clientSteps())
+	ns := countSteps((*fluent.GRIBIClient).Modify)
 	var cprogs [][]int
 	var gen func(cur []int)
 	gen = func(cur []int) {
@@ -500,22 +522,26 @@ func Run(rep *report.Report, tier string) {
 		}
 	}
 	gen(nil)
+	modes := []string{"a fresh Modify() wrapper per call", "one Modify() wrapper held for all calls", "chained calls on the returned wrapper"}
 	for _, elected := range []bool{true, false} {
-		idx := make([]int, len(cprogs))
-		for i := range idx {
-			idx[i] = i
-		}
-		par(idx, func(i int) {
-			fs := runClientProgram(elected, cprogs[i])
-			mu.Lock()
-			evals++
-			mu.Unlock()
-			for _, f := range fs {
-				rep.Violate(f.sig, f.what, map[string]any{"elected_primary": elected, "program": cprogs[i]})
+		for mode := range modes {
+			idx := make([]int, len(cprogs))
+			for i := range idx {
+				idx[i] = i
 			}
-		})
+			par(idx, func(i int) {
+				fs := runClientProgram(elected, mode, cprogs[i], (*fluent.GRIBIClient).Modify)
+				mu.Lock()
+				evals++
+				mu.Unlock()
+				for _, f := range fs {
+					rep.Violate(f.sig, f.what, map[string]any{"elected_primary": elected, "program": cprogs[i], "wrapper": modes[mode]})
+				}
+			})
+		}
 	}
-	rep.Set("client_programs", 2*len(cprogs))
+	rep.Set("client_programs", 2*len(modes)*len(cprogs))
+	rep.Set("wrapper_modes", modes)
 	rep.Set("evaluations", evals)
 	rep.Set("distinct_nontrivial", evals)
 	rep.Set("states", evals)
